@@ -19,13 +19,14 @@ func init() {
 		Level: "exploration",
 		Rule: "well-formed generated streams (PAT before PMTs, multi-section and multi-packet units) x every number k of NextPacket/NextData/alternating calls before Rewind (0..total, all k for small streams, " +
 			"strided for larger) x {explicit, auto} x single and repeated rewinds x full and chunked seekable reads; the results after the rewind are compared with a fresh demuxer; " +
-			"plus 1..65 537 rewinds in a row over a held partial unit (stage many-rewinds); a fifth of the rewinds under a context cancelled just before, compared with a Demuxer created with that context; distinct = hash of (stream, api, size mode, k); non-trivial = k>0",
+			"plus 1..65 537 rewinds in a row over a held partial unit (stage many-rewinds); a fifth of the rewinds under a context cancelled just before, compared with a Demuxer created with that context; a quarter of the streams with a packet that lost its sync byte, errors compared word for word; distinct = hash of (stream, api, size mode, k); non-trivial = k>0",
 		Assumptions: []string{"the reader is an in-memory seekable tap; streams satisfy the property's precondition (PAT precedes PMTs)"},
 		Shards:      32,
 		Run:         runC20,
 		Guards: func(m *mon.Merged, tier string) []string {
 			var out []string
 			need(m, &out, "rewinds_checked", 5000)
+			need(m, &out, "streams_with_a_damaged_packet", 40)
 			need(m, &out, "rewind_state_mid_unit", 200)
 			need(m, &out, "rewind_state_sections_buffered", 50)
 			need(m, &out, "rewind_state_at_eof", 50)
@@ -143,6 +144,14 @@ func runC20(c *mon.Ctx) {
 			if len(s.Packets) >= 3 && len(s.Packets) <= 60 {
 				break
 			}
+		}
+		if i%4 == 0 && len(s.Packets) >= 6 {
+			// a packet in the middle of the stream has lost its sync byte: the error the calls return for it - all of it, the words
+			// included - is part of what a Demuxer delivers, and is the same after a rewind as on a new Demuxer
+			dm := append([]byte{}, s.Bytes...)
+			dm[188*(len(s.Packets)/2)] = 0x00
+			s = &gen.Stream{Units: s.Units, Packets: s.Packets, Owner: s.Owner, Bytes: dm}
+			c.Count("streams_with_a_damaged_packet")
 		}
 		if i%3 == 2 {
 			// a capture cut in the middle of a packet: the truncated tail is end of stream and must leave no residue either
@@ -471,7 +480,7 @@ func rewindCase(c *mon.Ctx, stage string, idx int64, s *gen.Stream, m *gen.Model
 		if !ok {
 			return
 		}
-		if errors.Is(it.Err, astits.ErrNoMorePackets) {
+		if it.Err == astits.ErrNoMorePackets {
 			if cfg.API == "alt" && it.Data == nil && (call-1)%2 == 1 {
 				continue // NextPacket runs dry before NextData has flushed (same convention as RunDemux)
 			}
